@@ -850,7 +850,7 @@ def micro_programs():
             if not tmpl.startswith("return"):
                 lines.append(Line(["\treturn (0);"], "stmt", 1, 0))
             lines.append(Line(["}"], "func_close", 0, 0))
-            out.append(Prog(name, lines, dict(template=tmpl, bsizes=bs)))
+            out.append(normalise_indent(Prog(name, lines, dict(template=tmpl, bsizes=bs))))
             k += 1
     return out
 
@@ -1043,4 +1043,19 @@ def maximal_programs():
     L.append(Line(["\treturn (", vv, " + ", sv, "[0]);"], "stmt", 1, 0, stmt="return"))
     L.append(Line(["}"], "func_close", 0, 0))
     out.append(Prog(name, L, dict(nfuncs=1, maximal="constants of every C form")))
+    for prog in out:
+        normalise_indent(prog)
     return out
+
+
+def normalise_indent(prog):
+    """hand-written lines: make the first part the pure indentation (the edit operators replace / strip parts[0])"""
+    for l in prog.lines:
+        if l.parts and isinstance(l.parts[0], str) and l.kind in ("stmt", "decl", "ctrl", "cont", "lbrace", "rbrace", "member", "enumerator"):
+            first = l.parts[0]
+            n = len(first) - len(first.lstrip("\t"))
+            if n and n < len(first):
+                l.parts = [first[:n], first[n:]] + l.parts[1:]
+            elif n == 0:
+                l.parts = [""] + l.parts
+    return prog
